@@ -51,7 +51,8 @@ def replay(recipe):
 
 def run(ctx):
     out = SP.run_streams(ctx, MASK, monitor, 'overbook-contract', [
-        ('G-sim-overbook', 380, 6000, dict(algo='overbook')),
+        ('G-sim-overbook', 320, 6000, dict(algo='overbook')),
+        ('G-sim-saturate-overbook', 60, 1000, dict(saturate='overbook')),
     ])
     out['rule'] = ('whole run_simulator runs with the overbook scheduler, overcommit on, pools small enough that the '
                    'pool-level killer fires repeatedly (three-failure abandonment), DAG pipelines; compared per tick: '
